@@ -41,4 +41,7 @@ def clCs : List (Nat × Option Nat) :=
 /-- keys without a common prefix and with full-length separators: 38 bytes each in a node -/
 def wideKey (i : Nat) : Nat := (i + 1) * 2 ^ 248 + 1
 
+/-- the `(key, page number)` pairs of a level -/
+def kps (out : List OutNode) : List (Nat × Nat) := (flatOut out).map fun e => (e.key, e.val)
+
 end Nomt.BranchUpd
